@@ -34,7 +34,7 @@ def strategy(tier, unit):
     small = st.one_of(S.fl(-3e-8, 3e-8), S.fl(-1, 1), st.sampled_from([0.0, 1e-8, -1e-8, 9.9e-9, 1.01e-8]))
     cond = st.sampled_from([0, 0, 0, 2, 2, 3, 4, 6])
     return st.fixed_dictionaries({
-        "cell": S.cells(1.0, 60.0), "rot": S.rot_specs(2), "hkl": S.hkls(12), "eps": st.lists(S.fl(-0.1, 0.1), min_size=6, max_size=6),
+        "cell": S.cells(1.0, 60.0), "rot": S.rot_specs(2), "hkl": S.hkls(12, big=150), "eps": st.lists(S.fl(-0.1, 0.1), min_size=6, max_size=6),
         "ang": st.tuples(S.fl(-10, 10), S.fl(-10, 10), S.fl(-10, 10)).map(list),
         "inr": st.tuples(S.fl(0, 2 * math.pi), S.fl(0, math.pi), S.fl(0, 2 * math.pi)).map(list),
         "rod": st.tuples(S.fl(-3, 3), S.fl(-3, 3), S.fl(-3, 3)).map(list),
